@@ -38,6 +38,9 @@ pub enum Mut {
     DupKey { sel: u16 },
     /// make a text field non-UTF-8
     NonUtf8 { sel: u16 },
+    /// blow a byte string (0: transaction id, 1: token, 2: error text / id, 3: a fresh unknown
+    /// key's value) up to `len` bytes, shrunk as needed to keep the datagram within 1500 bytes
+    Inflate { which: u8, len: u16 },
     Truncate { permille: u16 },
     Trailing(#[serde(with = "hexser")] Vec<u8>),
     SetByte { pos: u16, val: u8 },
@@ -186,6 +189,49 @@ pub fn build(input: &Input) -> Vec<u8> {
                     }
                 }
             }
+            Mut::Inflate { which, len } => {
+                let key: &str = match which % 4 {
+                    0 => "t",
+                    1 => "token",
+                    2 => "e",
+                    _ => "zz",
+                };
+                let fill = |n: usize| -> B { B::Bytes((0..n).map(|i| b'a' + (i % 23) as u8).collect()) };
+                let set = |tree: &mut B, n: usize| match key {
+                    "t" => {
+                        if let Some(x) = tree.get_mut("t") {
+                            *x = fill(n);
+                        }
+                    }
+                    "token" => {
+                        for d in ["a", "r"] {
+                            if let Some(x) = tree.get_mut(d).and_then(|a| a.get_mut("token")) {
+                                *x = fill(n);
+                            }
+                        }
+                    }
+                    "e" => {
+                        if let Some(B::List(l)) = tree.get_mut("e") {
+                            if l.len() == 2 {
+                                l[1] = fill(n);
+                            }
+                        }
+                    }
+                    _ => {
+                        if let B::Dict(kv) = tree {
+                            kv.retain(|(k, _)| k != b"zz");
+                            kv.push((b"zz".to_vec(), fill(n)));
+                        }
+                    }
+                };
+                if matches!(tree, B::Dict(_)) {
+                    set(&mut tree, *len as usize);
+                    let over = tree.encode().len().saturating_sub(MAX_DGRAM);
+                    if over > 0 {
+                        set(&mut tree, (*len as usize).saturating_sub(over + 2));
+                    }
+                }
+            }
             Mut::Truncate { permille } => {
                 let mut b = bytes.take().unwrap_or_else(|| tree.encode());
                 let cut = b.len() * (*permille as usize % 1000) / 1000;
@@ -242,6 +288,7 @@ pub fn input() -> impl Strategy<Value = Input> {
         3 => (any::<u16>(), 0u8..5).prop_map(|(sel, to)| Mut::SwapType { sel, to }),
         1 => any::<u16>().prop_map(|sel| Mut::DupKey { sel }),
         1 => any::<u16>().prop_map(|sel| Mut::NonUtf8 { sel }),
+        3 => (0u8..4, prop_oneof![1 => 33u16..300, 2 => 300u16..1200, 3 => 1200u16..1480]).prop_map(|(which, len)| Mut::Inflate { which, len }),
         2 => (0u16..1000).prop_map(|permille| Mut::Truncate { permille }),
         1 => vec(any::<u8>(), 1..8).prop_map(Mut::Trailing),
         2 => (any::<u16>(), any::<u8>()).prop_map(|(pos, val)| Mut::SetByte { pos, val }),
@@ -399,7 +446,7 @@ impl Stage for Decode {
         }
     }
     fn rule(&self) -> String {
-        "byte strings <= 1500 B built from a valid KRPC message (C13 generator), from nothing, or from up to 1500 levels of nesting, with 0..8 structure-aware mutations: declared string lengths of 20 magnitudes (0 .. 2^64 and beyond, 30 digits, leading zeros), 21 integer texts at the i64/u16/u8 limits and malformed, wrapping any subtree in up to 750 lists/dicts, type swaps in any position, duplicate keys, non-UTF-8 text, truncation at any offset, trailing bytes, byte overwrites, raw insertions. Executed in a supervised worker on a 2 MiB stack under a counting allocator. Oracle: the worker answers (no death), no panic, largest single allocation <= 256 KiB, total requested <= 8 MiB. Non-trivial: mutated, not a valid message, and a sensible bencode prefix of >= 8 bytes survives".into()
+        "byte strings <= 1500 B built from a valid KRPC message (C13 generator), from nothing, or from up to 1500 levels of nesting, with 0..8 structure-aware mutations: declared string lengths of 20 magnitudes (0 .. 2^64 and beyond, 30 digits, leading zeros), 21 integer texts at the i64/u16/u8 limits and malformed, wrapping any subtree in up to 750 lists/dicts, type swaps in any position, duplicate keys, non-UTF-8 text, transaction ids / tokens / error texts / unknown values inflated up to the full datagram (still well-formed), truncation at any offset, trailing bytes, byte overwrites, raw insertions. Executed in a supervised worker on a 2 MiB stack under a counting allocator. Oracle: the worker answers (no death), no panic, largest single allocation <= 256 KiB, total requested <= 8 MiB. Non-trivial: mutated, not a valid message, and a sensible bencode prefix of >= 8 bytes survives".into()
     }
     fn sample(&self, c: &Input) -> serde_json::Value {
         let b = build(c);
